@@ -215,6 +215,7 @@ func (m *distMonitor) AfterBegin(r *kernel.Run, resp abci.ResponseBeginBlock) {
 	if m.CheckC18 {
 		m.evals++
 		m.checkEvents(r, resp.Events)
+		m.checkMintEvent(r, resp.Events, mints)
 	}
 }
 
@@ -309,7 +310,7 @@ func (m *distMonitor) checkBooks(r *kernel.Run) {
 		return
 	}
 	bal := c.BalanceOf(kernel.DistMainAddr())
-	if !whole.IsEqual(bal) {
+	if !coinsEq(whole, bal) {
 		r.Violate("C03", "books", "books-vs-balance:"+m.driftClass(), "recorded leftovers sum to %s but the main account holds %s [config %s]", whole, bal, m.shape)
 	}
 }
@@ -380,3 +381,32 @@ func (m *distMonitor) checkEvents(r *kernel.Run, evs []abci.Event) {
 }
 
 func (m *distMonitor) String() string { return fmt.Sprintf("distMonitor(%s)", m.shape) }
+
+// checkMintEvent: C18 (mint half) — the Mint event carries the amount actually minted in this block
+// (the bank's coinbase events of the minter module, which is also the block's supply increase by minting).
+func (m *distMonitor) checkMintEvent(r *kernel.Run, evs []abci.Event, mints []transferEv) {
+	minterAddr := kernel.ModuleAddr("cfeminter").String()
+	denom := r.Chain.App.CfeminterKeeper.GetParams(r.Chain.Ctx()).MintDenom
+	minted := sdk.ZeroInt()
+	for _, mt := range mints {
+		if mt.from == minterAddr {
+			minted = minted.Add(mt.coins.AmountOf(denom))
+		}
+	}
+	mev := kernel.EventAttrs(evs, "chain4energy.c4echain.cfeminter.Mint")
+	if len(mev) != 1 {
+		r.Violate("C18", "mint-event", "mint-event-count", "%d Mint events in one block", len(mev))
+		return
+	}
+	amt, ok := sdk.NewIntFromString(trimQuotes(mev[0]["amount"]))
+	if !ok {
+		r.Violate("C18", "mint-event", "unparsable-amount", "Mint event amount %q", mev[0]["amount"])
+		return
+	}
+	if !amt.Equal(minted) {
+		r.Violate("C18", "mint-event", "mint-event-amount", "Mint event reports %s, the minter minted %s%s in this block", amt, minted, denom)
+	}
+	if minted.IsPositive() {
+		r.Stats.Inc("probe.mint_event_positive")
+	}
+}
